@@ -240,7 +240,70 @@ impl Runner {
     }
 }
 
+/// Query rows whose eps-ball is *contested*: it holds rows of at least two clusters and at
+/// least one unclustered row.  Pure input selection: a preliminary fit of the same data
+/// supplies the labels, candidate rows (every training row moved along one axis by one unit or
+/// by the radius) are kept when their ball looks contested, and the chosen rows are appended to
+/// the case's query list.  What the right answer for such a row is, is decided by the
+/// specification (PredictOK), not here.
+fn add_contested_queries(rn: &mut Runner, c: &mut Case) {
+    if c.ev != "Run" || c.enc_m > 0 || c.pts.len() > 200 || c.pts.len() < 5 {
+        return;
+    }
+    let mut probe = c.clone();
+    probe.qs = Vec::new();
+    let fits = rn.fits(&probe);
+    let y: Vec<i64> = match fits.iter().find(|f| f["status"] == "ok") {
+        Some(f) => f["y"].as_array().unwrap().iter().map(|v| v.as_i64().unwrap()).collect(),
+        None => return,
+    };
+    if y.len() != c.pts.len() {
+        return;
+    }
+    let d = c.pts[0].len();
+    let rad = axis_radius(&c.key, c.eps).max(1);
+    let mut seen: std::collections::HashSet<Vec<i64>> = std::collections::HashSet::new();
+    let mut found: Vec<(i64, Vec<i64>)> = Vec::new();
+    'rows: for p in c.pts.iter() {
+        for j in 0..d {
+            for delta in [1i64, -1, rad, -rad].iter() {
+                let mut q = p.clone();
+                q[j] += *delta;
+                if !seen.insert(q.clone()) {
+                    continue;
+                }
+                if seen.len() > 800 {
+                    break 'rows;
+                }
+                let mut labels: Vec<i64> = Vec::new();
+                let mut noise = 0i64;
+                for (i, t) in c.pts.iter().enumerate() {
+                    if key_dist(&c.key, &q, t) <= c.eps {
+                        if y[i] < 0 {
+                            noise += 1;
+                        } else if !labels.contains(&y[i]) {
+                            labels.push(y[i]);
+                        }
+                    }
+                }
+                if labels.len() >= 2 && noise >= 1 {
+                    found.push((noise, q));
+                }
+            }
+        }
+    }
+    found.sort_by(|a, b| b.0.cmp(&a.0));
+    for (_, q) in found.into_iter().take(6) {
+        c.qs.push(q);
+    }
+}
+
 fn run_case(rn: &mut Runner, run: i64, c: &Case) -> Value {
+    let mut c = c.clone();
+    if c.src != "refile" {
+        add_contested_queries(rn, &mut c);
+    }
+    let c = &c;
     let fits = rn.fits(c);
     json!({"run": run, "ev": c.ev, "src": c.src, "case": c.case, "pts": c.pts, "key": c.key,
            "eps": c.eps, "minPts": c.min_pts, "metric": c.metric, "ty": c.ty,
@@ -737,6 +800,63 @@ fn gen_geometric_case(r: &mut StdRng) -> Case {
     }
 }
 
+/// Contested predict balls by construction: around an empty centre cell, 2..4 cluster "arms"
+/// (chains leaving the centre along different axis directions, steps exactly eps) and isolated
+/// rows on other neighbouring cells (noise, since min_samples >= 2), with small multiplicities.
+/// The centre -- found again by `add_contested_queries` -- sees one or two votes per cluster
+/// and one or more noise votes.
+fn gen_contested_case(r: &mut StdRng) -> Case {
+    let d = *[2usize, 2, 3].choose(r).unwrap();
+    let key = if r.gen_bool(0.5) { "man" } else { "euc2" };
+    let s = r.gen_range(1..=3i64);
+    let min_pts = r.gen_range(2..=3usize);
+    let mut dirs: Vec<(usize, i64)> = (0..d).flat_map(|j| vec![(j, 1i64), (j, -1i64)]).collect();
+    dirs.shuffle(r);
+    let na = r.gen_range(2..=(2 * d - 1).min(4));
+    let centre: Vec<i64> = (0..d).map(|_| r.gen_range(-5..=5) * s).collect();
+    let mut pts: Vec<Vec<i64>> = Vec::new();
+    for (a, &(j, sg)) in dirs.iter().enumerate() {
+        if a < na {
+            let len = min_pts as i64 + r.gen_range(0..=2);
+            for t in 1..=len {
+                let mut p = centre.clone();
+                p[j] += sg * t * s;
+                pts.push(p.clone());
+                if t == 1 && r.gen_bool(0.3) {
+                    pts.push(p);
+                }
+            }
+        } else if r.gen_bool(0.85) {
+            let mut p = centre.clone();
+            p[j] += sg * s;
+            for _ in 0..r.gen_range(1..=(min_pts - 1)) {
+                pts.push(p.clone());
+            }
+        }
+    }
+    for _ in 0..r.gen_range(0..=6usize) {
+        pts.push((0..d).map(|_| r.gen_range(12..=20) * s).collect());
+    }
+    pts.shuffle(r);
+    let eps = if key == "man" { s } else { s * s };
+    let qs = random_queries(r, &pts, key, eps);
+    Case {
+        ev: "Run".into(),
+        src: "contested".into(),
+        case: -1,
+        pts,
+        key: key.into(),
+        eps,
+        min_pts,
+        metric: (if key == "euc2" { "euclidean" } else if r.gen_bool(0.5) { "manhattan" } else { "minkowski1" }).into(),
+        ty: (if r.gen_bool(0.25) { "f32" } else { "f64" }).into(),
+        scale_exp: if r.gen_bool(0.4) { r.gen_range(-20..=20) } else { 0 },
+        qs,
+        api: (if r.gen_bool(0.3) { "trait" } else { "inherent" }).into(),
+        ..Default::default()
+    }
+}
+
 fn ivec2(v: &Value) -> Vec<Vec<i64>> {
     v.as_array()
         .expect("array of points")
@@ -844,6 +964,11 @@ fn main() {
                 run += 1;
                 out.emit(run_case(&mut rn, run, &c));
             }
+            // contested predict balls (>= 2 clusters and noise within eps of the query row)
+            for _ in 0..(if th { 1000 } else { 150 }) {
+                run += 1;
+                out.emit(run_case(&mut rn, run, &gen_contested_case(&mut r)));
+            }
             // deep structures
             let ndeep = if th { 400 } else { 60 };
             for _ in 0..ndeep {
@@ -882,7 +1007,13 @@ fn main() {
             let mut out = Out::create(arg(args, 2));
             for e in v["events"].as_array().expect("events").iter() {
                 run = e.get("run").and_then(|x| x.as_i64()).unwrap_or(run + 1);
-                out.emit(run_case(&mut rn, run, &case_of_json(e)));
+                // re-run exactly the recorded inputs (query rows included)
+                let mut c = case_of_json(e);
+                let src = c.src.clone();
+                c.src = "refile".into();
+                let mut v = run_case(&mut rn, run, &c);
+                v["src"] = json!(src);
+                out.emit(v);
             }
             let n = out.finish();
             println!("events={}", n);
